@@ -92,7 +92,7 @@ fn write_garbage(w: &World, g: &Garbage) {
 
 fn event_for(w: &World, op: &EdOp) -> Vec<SourceFileEvent> {
     match op {
-        EdOp::Write(p, _) => vec![(
+        EdOp::Write(p, _) | EdOp::AtomicSave(p, _) => vec![(
             SourceEventKind::CreateOrModify(w.abs(PATHS[*p % PATHS.len()].rel)),
             ChangedFileKind::JavaScriptSourceFile,
         )],
@@ -116,7 +116,7 @@ fn event_for(w: &World, op: &EdOp) -> Vec<SourceFileEvent> {
 
 pub fn allowed_in_session(op: &EdOp) -> bool {
     match op {
-        EdOp::Write(p, _) | EdOp::Delete(p) => PATHS[*p % PATHS.len()].source,
+        EdOp::Write(p, _) | EdOp::Delete(p) | EdOp::AtomicSave(p, _) => PATHS[*p % PATHS.len()].source,
         EdOp::WriteSchema(_) | EdOp::WriteExt(_) | EdOp::MkDir(_) => true,
         _ => false,
     }
